@@ -107,8 +107,28 @@ fn builder_case(seed: u64) -> Result<(), String> {
         (4, mk_def("area", UserPrmDataType::BitArea(2, 4), 3, PrmValueConstraint::Unconstrained, None)),
         (5, mk_def("enum", UserPrmDataType::Unsigned8, 10, PrmValueConstraint::Enum(vec![10, 20, 30]), Some(vec![("ten", 10), ("forty", 40)]))),
     ];
-    let desc = UserPrmData { length: 6, data_const: vec![(0, consts.clone())], data_ref: fields.clone() };
-    let mut model = consts.clone();
+    // constant-block layouts: one block / two adjacent blocks / a patch block overlapping the image / descending offsets /
+    // a gap between blocks (zero-filled) - "constants underneath" in every listed order
+    // byte 4 carries the BitArea field: its constant stays 0 so that known finding F15 (BitArea assigns the whole byte) is not involved
+    let cb: Vec<u8> = (0..6).map(|i| if i == 4 { 0 } else { lcg(&mut s) as u8 }).collect();
+    let data_const: Vec<(usize, Vec<u8>)> = match lcg(&mut s) % 6 {
+        0 => vec![(0, consts.clone())],
+        1 => vec![(0, cb[..3].to_vec()), (3, cb[3..].to_vec())],
+        2 => vec![(0, cb.clone()), (2, vec![0xA5, 0x5A])],
+        3 => vec![(3, cb[3..].to_vec()), (0, cb[..3].to_vec())],
+        4 => vec![(0, cb[..2].to_vec()), (4, cb[4..].to_vec())],
+        _ => vec![(0, cb.clone()), (1, vec![0x11]), (0, vec![0x22, 0x33])],
+    };
+    // the listed blocks are overlaid in order on a zero-filled block that grows as needed (statement: "the block equals
+    // the constant bytes overlaid with the parameter values")
+    let mut model: Vec<u8> = Vec::new();
+    for (off, blk) in &data_const {
+        if model.len() < off + blk.len() { model.resize(off + blk.len(), 0); }
+        model[*off..off + blk.len()].copy_from_slice(blk);
+    }
+    if model.len() < 6 { model.resize(6, 0); }
+    // bits outside the fields stay whatever the constants say; the fields below only use bytes 0..6
+    let desc = UserPrmData { length: 6, data_const: data_const.clone(), data_ref: fields.clone() };
     for (off, d) in &fields { let w = ref_write(d.data_type, d.default_value, &model[*off..]).ok_or("default out of range")?; model[*off..*off + w.len()].copy_from_slice(&w); }
     let mut b = PrmBuilder::new(&desc).map_err(|_| "PrmBuilder::new failed for in-range defaults".to_string())?;
     if b.as_bytes() != &model[..] { return Err(format!("new(): block {:02x?}, constants overlaid by defaults give {:02x?}", b.as_bytes(), model)); }
